@@ -116,12 +116,47 @@ def sequential_events(rnd: random.Random, q: bool) -> list:
         evs.append({"op": "ident", "what": "tzdb[" + i + "]", "same": tz[i] is first[i] and tz.get_zone_or_none(i) is first[i]})
     for cid in CalendarSystem.ids:
         evs.append({"op": "ident", "what": "calendar " + cid, "same": CalendarSystem.for_id(cid) is CalendarSystem.for_id(cid)})
+    # 3b. calendar systems are one object per id whatever route and order they are asked for in: for_id, the class properties,
+    #     the parameterised factories, a date's own calendar and the ordinal table, in shuffled histories
+    from pyoda_time.calendars import HebrewMonthNumbering, IslamicEpoch, IslamicLeapYearPattern
+
+    props = {"Badi": "badi", "Coptic": "coptic", "Gregorian": "gregorian", "Hebrew Civil": "hebrew_civil", "Hebrew Scriptural": "hebrew_scriptural",
+             "ISO": "iso", "Julian": "julian", "Persian Simple": "persian_simple", "Persian Arithmetic": "persian_arithmetic",
+             "Persian Algorithmic": "persian_astronomical", "Um Al Qura": "um_al_qura", "Hijri Astronomical-Base16": "islamic_bcl"}
+    routes = []
+    for cid in CalendarSystem.ids:
+        routes.append((cid, "for_id", lambda cid=cid: CalendarSystem.for_id(cid)))
+        routes.append((cid, "date", lambda cid=cid: (lambda c: LocalDate(c.min_year + 1, 1, 1, c).calendar)(CalendarSystem.for_id(cid))))
+        routes.append((cid, "converted", lambda cid=cid: LocalDate(2000, 1, 1).with_calendar(CalendarSystem.for_id(cid)).plus_days(1).calendar))
+        if cid in props and hasattr(CalendarSystem, props[cid]):
+            routes.append((cid, "property", lambda cid=cid: getattr(CalendarSystem, props[cid])))
+    for num, cid in ((HebrewMonthNumbering.CIVIL, "Hebrew Civil"), (HebrewMonthNumbering.SCRIPTURAL, "Hebrew Scriptural")):
+        routes.append((cid, "factory", lambda num=num: CalendarSystem.get_hebrew_calendar(num)))
+    for ep in IslamicEpoch:
+        for pat in IslamicLeapYearPattern:
+            # the public id of the variant, spelled out here (no private helper): "Hijri <Epoch>-<Pattern>"
+            pname = {"BASE15": "Base15", "BASE16": "Base16", "INDIAN": "Indian", "HABASH_AL_HASIB": "HabashAlHasib"}[pat.name]
+            cid = f"Hijri {ep.name.capitalize()}-{pname}"
+            if cid in CalendarSystem.ids:
+                routes.append((cid, "factory", lambda pat=pat, ep=ep: CalendarSystem.get_islamic_calendar(pat, ep)))
+    seen: dict = {}
+    for _ in range(3):
+        rnd.shuffle(routes)
+        for cid, how, fn in routes:
+            ev = {"op": "ident", "what": f"calendar {cid} via {how}"}
+            try:
+                c = fn()
+                first = seen.setdefault(cid, c)
+                ev["same"] = (c is first) and (c == first) and c.id == cid and hash(c) == hash(first)
+            except Exception as e:  # noqa: BLE001
+                ev["same"], ev["exc"] = False, type(e).__name__
+            evs.append(ev)
     # 4. pattern / format-info cache: more cultures than the cache holds, then the first ones again
     cultures = []
     try:
         import icu
 
-        for loc in sorted(icu.Locale.getAvailableLocales())[: (560 if not q else 520)]:
+        for loc in sorted(icu.Locale.getAvailableLocales()):
             try:
                 cultures.append(CultureInfo(loc.replace("_", "-")))
             except Exception:  # noqa: BLE001
@@ -129,16 +164,31 @@ def sequential_events(rnd: random.Random, q: bool) -> list:
     except Exception:  # noqa: BLE001
         pass
     probe = LocalDate(2024, 2, 29)
-    texts = {}
+    # the format-info cache holds read-only cultures only (a mutable culture is never cached): every culture is formatted through
+    # a read-only wrapper (the shared, history-dependent path) and through its mutable original (the pure path)
+    shared = []
     for c in cultures:
         try:
-            texts[c.name] = LocalDatePattern.create("D", c).format(probe)
-        except Exception:  # noqa: BLE001
+            pure = LocalDatePattern.create("D", c).format(probe)
+        except Exception:  # noqa: BLE001 - this culture's long date pattern is not usable at all: no question to ask
             continue
-    for c in cultures[:40] + rnd.sample(cultures, min(40, len(cultures))):
-        if c.name in texts:
-            again = LocalDatePattern.create("D", CultureInfo(c.name)).format(probe)
-            evs.append({"op": "fmt", "culture": c.name, "text": [ord(ch) for ch in again], "pure": [ord(ch) for ch in texts[c.name]]})
+        ro = CultureInfo.read_only(c)
+        shared.append((c, ro, pure))
+        if len(shared) > (540 if q else 790):
+            break
+        ev = {"op": "fmt", "culture": c.name, "pure": [ord(ch) for ch in pure], "text": [], "n": len(shared)}
+        try:
+            ev["text"] = [ord(ch) for ch in LocalDatePattern.create("D", ro).format(probe)]
+        except Exception as e:  # noqa: BLE001
+            ev["exc"] = type(e).__name__
+        evs.append(ev)
+    for c, ro, pure in shared[:40] + rnd.sample(shared, min(40, len(shared))):
+        ev = {"op": "fmt", "culture": c.name, "pure": [ord(ch) for ch in pure], "text": [], "again": True}
+        try:
+            ev["text"] = [ord(ch) for ch in LocalDatePattern.create("D", ro).format(probe)]
+        except Exception as e:  # noqa: BLE001
+            ev["exc"] = type(e).__name__
+        evs.append(ev)
     return evs
 
 
